@@ -27,11 +27,15 @@ SuccLines ==
                 S |-> KeyOf(PunctureSt(srv, i, TagSeq[j]))]]]
       cl == [i \in 1..Len(srv) |-> [a |-> "C", i |-> i, t |-> 0, ok |-> 1, S |-> KeyOf(CloneSt(srv, i))]]
       xi == [i \in 1..Len(srv) |-> [a |-> "X", i |-> i, t |-> 0, ok |-> 1, S |-> KeyOf(ExpImpSt(srv, i))]]
+      sy == [k \in 1..(Len(srv) * Len(srv)) |->
+               LET i == ((k - 1) \div Len(srv)) + 1  j == ((k - 1) % Len(srv)) + 1
+               IN [a |-> "S", i |-> i, t |-> j, ok |-> IF i = j THEN 0 ELSE 1,
+                   S |-> IF i = j THEN KeyOf(srv) ELSE KeyOf(SyncSt(srv, i, j))]]
       nw == IF \A i \in 1..Len(srv) : srv[i].key # 2
               THEN << [a |-> "N", i |-> 0, t |-> 0, ok |-> 1, S |-> KeyOf(NewOtherSt(srv))] >> ELSE <<>>
       RECURSIVE Flat(_)
       Flat(ss) == IF ss = <<>> THEN <<>> ELSE Head(ss) \o Flat(Tail(ss))
-  IN Flat(pn) \o (IF Room THEN cl \o xi \o nw ELSE <<>>)
+  IN Flat(pn) \o sy \o (IF Room THEN cl \o xi \o nw ELSE <<>>)
 
 StateLine ==
   [ S    |-> KeyOf(srv),
